@@ -6,6 +6,7 @@ import Tw.Proofs.TeehistInterp
 import Tw.Proofs.TeehistSem
 import Tw.Proofs.TeehistTicks
 import Tw.Proofs.TeehistSums
+import Tw.Proofs.TeehistTables
 import Tw.Model.TeehistorianSpec
 
 /-!
@@ -402,6 +403,31 @@ theorem sums_equal_doc (env : Env) (hdr s : List UInt8) (cfg : Cfg) (hh : Header
     refine ⟨fun c => ?_, fun c => ?_⟩ <;> simp [Reader.empty, Sums.empty, tGet]
   exact interp_sums cfg _ (parseAll cfg.hasEx (s.length + 1) s).2 Reader.empty Sums.empty
     (fun r h => ⟨hwf r h, hrg r h⟩) hI
+
+/-- **The tables the reader exposes after the last call hold the running sums**: after a stream
+that ends with `FINISH`, `player_pos(cid)` and `input(cid)` are, for every client id, the exact
+integer sums of the recorded differences (`sumsAfter`) reduced modulo 2^32 — `None` exactly for the
+ids without a live player / input — under every fragmentation. -/
+theorem tables_equal_doc (env : Env) (hdr s : List UInt8) (cfg : Cfg) (hh : HeaderOk env hdr cfg) (ds : List Nat)
+    (hf : (run env (hdr ++ s) ds).final = .finished) (c : Nat) :
+    (run env (hdr ++ s) ds).access.playerPos c =
+      ((sumsAfter Sums.empty (messages cfg.hasEx s)).pos c).map (fun p => (wrap32 p.1, wrap32 p.2)) ∧
+    (run env (hdr ++ s) ds).access.input c =
+      ((sumsAfter Sums.empty (messages cfg.hasEx s)).inp c).map (fun v => v.map wrap32) := by
+  rw [run_eq_runWhole env hdr s cfg hh] at hf ⊢
+  have hwf := (parseAll_wf cfg.hasEx (s.length + 1) s (by omega)).1
+  have hrg := parseAll_range cfg.hasEx (s.length + 1) s
+  have hI : InvS Reader.empty Sums.empty := by
+    refine ⟨fun c => ?_, fun c => ?_⟩ <;> simp [Reader.empty, Sums.empty, tGet]
+  have := interp_tables cfg _ (parseAll cfg.hasEx (s.length + 1) s).2 Reader.empty Sums.empty
+    (fun r h => ⟨hwf r h, hrg r h⟩) hI hf
+  exact ⟨this.1 c, this.2 c⟩
+
+-- PLAYER_NEW 0 at (i32::MAX, i32::MIN); PLAYER_DIFF 0 (+1, -1); INPUT_NEW 7 (ten 3s); FINISH
+example :
+    (runWhole ⟨true⟩ ([0x42, 0, 0xbf, 0xff, 0xff, 0xff, 0x0f, 0xff, 0xff, 0xff, 0xff, 0x0f, 0, 1, 0x40] ++
+      [0x45, 7, 3, 3, 3, 3, 3, 3, 3, 3, 3, 3, 0x40])).access =
+      ⟨8, [(0, (-2147483648, 2147483647))], [(7, [3, 3, 3, 3, 3, 3, 3, 3, 3, 3])]⟩ := by decide +kernel
 
 -- non-vacuity / regression for the repaired defect D11: PLAYER_NEW 2; PLAYER_NEW 3; TICK_SKIP 0;
 -- PLAYER_DIFF 2; FINISH — the documentation puts the last record into tick 1
